@@ -223,9 +223,9 @@ func (n *node[K, V]) collect(t *Trie[K, V], prefix K) (Queuer[K], error) {
 
 	n.left.collect(t, prefix)
 	if n.isValid {
-		t.q.Enqueue(prefix + K(n.c))
+		t.q.Enqueue(prefix + K([]byte{n.c}))
 	}
-	n.mid.collect(t, prefix+K(n.c))
+	n.mid.collect(t, prefix+K([]byte{n.c}))
 
 	return n.right.collect(t, prefix)
 }
